@@ -12,6 +12,12 @@ CHECKS = {
  "C01": ("exploration", "runtime monitoring: prefix/exactly-once oracle over recorded Send/Recv histories of the real gbn code in virtual time (testing/synctest) under PRNG fault scripts",
          "Thousands of random drop/dup/delay scenarios per run for every window size, each wrapping the sequence space >=3 times; the oracle compares every delivered message byte-for-byte with the accepted Send sequence. Sampling of schedules and fault scripts, not enumeration.",
          "FIFO link model; faults after a clean handshake; go1.26.8 synctest virtual clock; harness message generator", "3/C01", True),
+ "C12": ("exploration", "runtime monitoring: Close injected at recorded event instants of real gbn scenarios in virtual time; bounded-return, FIN, wake-up oracles and a goroutine census of the bubble",
+         "For every drawn scenario Close is injected at the instants of its own wire events (and at random ones), by either side, both, or twice concurrently, over a working or dead transport; handshake-phase cancellation and a real-time slice for blocking transports. The census enumerates every goroutine started inside the bubble.",
+         "bounds are exact in virtual time; bare time.Ticker objects without goroutine are not enumerable; schedules sampled", "3/C12", True),
+ "C18": ("exploration", "sanitizer: Go race detector (non-halting, reports collected and deduplicated) over virtual-time scenarios with concurrent API callers and coincident timers; panic oracle via worker death; porcupine linearizability check of Send/Recv histories; two-census deadlock rule on direct stress",
+         "The race detector observes the real gbn code while several goroutines call Send/Recv/Close/timeout setters and ping, pong and resend timers share instants with packet arrivals; any report with a gbn frame, any worker death or any non-linearizable history is a violation.",
+         "race detector sees only executed accesses; porcupine Unknown = inconclusive", "3/C18", True),
 }
 
 PLANNED = {}
